@@ -3657,3 +3657,308 @@ def ob_registry_ctx_step(ctx, groups):
         res.status, res.detail = 'inconclusive', 'vacuous'
     res.time = time.time() - t0
     return res
+
+
+# ---------------------------------------------------------------------------------------------------------------------
+# C14 (tour half): one operation on a tour from an arbitrary well-formed state
+
+def seq_items(s):
+    return s.items if isinstance(s, VecV) else s.fields
+
+
+TOUR_SINGLES = ('sA', 'sB1', 'sB2', 'sC', 'sD')
+TOUR_JOB_OF = {'sA': 'A', 'sB1': 'M', 'sB2': 'M', 'sC': 'C', 'sD': 'D'}
+
+
+def tour_reference(labels, closed, op, arg):
+    """Pure reference of one Tour operation on the label sequence [start, singles.., (end)] -> (labels', result)."""
+    labels = list(labels)
+    if op == 'insert_at':
+        single, idx = arg
+        return labels[:idx] + [single] + labels[idx:], None
+    if op == 'insert_last':
+        n_jobs = len(labels) - (2 if closed else 1)
+        return labels[:n_jobs + 1] + [arg] + labels[n_jobs + 1:], None
+    if op == 'remove':
+        keep = [x for x in labels if TOUR_JOB_OF.get(x) != arg]
+        return keep, len(keep) != len(labels)
+    if op == 'remove_activity_at':
+        job = TOUR_JOB_OF[labels[arg]]
+        return [x for x in labels if TOUR_JOB_OF.get(x) != job], job
+    raise ValueError(op)
+
+
+def tour_observations(labels, closed):
+    """What the accessors of a well-formed tour must answer for the label sequence."""
+    jobs = []
+    for x in labels:
+        j = TOUR_JOB_OF.get(x)
+        if j and j not in jobs:
+            jobs.append(j)
+    n = len(labels)
+    legs = [[labels[i:i + 2], i] for i in range(n - 1)] if n != 1 else [[labels[0:1], 0]]
+    if not closed and n > 1:
+        legs.append([labels[n - 1:], n - 1])
+    per_job = {}
+    for j in ('A', 'M', 'C', 'D'):
+        pos = [i for i, x in enumerate(labels) if TOUR_JOB_OF.get(x) == j]
+        per_job[j] = {'contains': j in jobs, 'index': pos[0] if pos else None, 'index_last': pos[-1] if pos else None, 'activities': len(pos)}
+    return {'labels': labels, 'total': n, 'job_activity_count': n - (2 if closed else 1), 'job_count': len(jobs), 'has_jobs': bool(jobs),
+            'jobs': sorted(jobs), 'legs': legs, 'per_job': per_job, 'end_idx': n - 1}
+
+
+def ob_tour_step(ctx, n_acts, closed):
+    """C14 (tour): ONE operation of `Tour` (real MIR: insert_at, insert_last, remove, remove_activity_at, deep_copy, and every
+    accessor: legs, jobs, index, index_last, contains, has_job, has_jobs, job_count, job_activity_count, total, start, end,
+    end_idx, get, job_activities) from an ARBITRARY well-formed tour of `n_acts` job activities: which task each activity
+    serves is a symbolic choice among the tasks of a single job A, a two-task multi job M and a single job C (each task at
+    most once), the insertion index / removal index / removed job / inserted task are symbolic.  After the operation the tour
+    is again well formed - depot ends in place, job set = jobs of the activities, counts, leg enumeration incl. the extra leg
+    of an open tour - and it is exactly the reference result; a deep copy shares no activity with the original and changing it
+    leaves the original as it was.  The post-state is a member of the same family with n_acts +- {0,1,2}, which is what makes
+    the step an inductive one."""
+    from symex import AMapV
+    name = f'tour_step[k={n_acts},{"closed" if closed else "open"}]'
+    res = Result(name)
+    res.bounds = (f'{n_acts} job activities, tasks drawn from A (single), M (multi, 2 tasks), C (single), each at most once; new task / absent job D; '
+                  'insertion index in 1..=job activities+1 (the documented use), removal index over the job activities; all symbolic')
+    t0 = time.time()
+    M = {m: ctx.prog.find_method('Tour', m) for m in (
+        'insert_at', 'insert_last', 'remove', 'remove_activity_at', 'deep_copy', 'legs', 'jobs', 'index', 'index_last', 'contains', 'has_job',
+        'has_jobs', 'job_count', 'job_activity_count', 'total', 'start', 'end', 'end_idx', 'get', 'job_activities')}
+    # another `Tour` lives in algorithms/lkh
+    M = {m: [f for f in v if 'models/solution/tour.rs' in str(f.impl_loc)] for m, v in M.items()}
+    bad = [m for m, v in M.items() if len(v) != 1]
+    # `index` is also the name of the Index impl
+    if 'index' in bad:
+        M['index'] = [f for f in M['index'] if (ctx.prog.impl_header(f) or (None,))[0] is None]
+        bad = [m for m, v in M.items() if len(v) != 1]
+    if bad:
+        raise Inconclusive('Tour methods not found: ' + ', '.join(bad))
+
+    class Env(drivers.Env):
+        symbolic_maps = True
+
+        def override(self, engine, st, callee, args, dest_ty):
+            if callee.endswith('Multi::roots'):
+                s = deref_all(args[0])
+                cell = _identity_cell_of(args[0])
+                if cell is self.single_cells['sB1'] or cell is self.single_cells['sB2']:
+                    return mk_option(True, self.multi_arc, ty=dest_ty)
+                return mk_option(False, ty=dest_ty)
+            if callee.endswith('Activity::retrieve_job'):
+                return NotImplemented          # the real body runs (its Multi::roots look-up is the environment answer above)
+            return super().override(engine, st, callee, args, dest_ty)
+
+    def _identity_cell_of(v):
+        while isinstance(v, RefV):
+            tgt = v.load()
+            if isinstance(tgt, ArcV):
+                return tgt.cell
+            if not isinstance(tgt, RefV):
+                # a reference to the payload of an Arc: the cell that holds it
+                return v.container if isinstance(v.container, Cell) else None
+            v = tgt
+        return v.cell if isinstance(v, ArcV) else None
+
+    ops = ('insert_at', 'insert_last', 'remove', 'remove_activity_at', 'copy')
+    for op in ops:
+        if op == 'remove_activity_at' and n_acts == 0:
+            continue
+        env = Env(ctx.prog, ctx.layout, 8)
+        eng = symex.Engine(ctx.prog, ctx.layout, env)
+
+        def job_value(env, j):
+            if j == 'M':
+                return EnumV('jobs::Job', 1, {1: [env.multi_arc]})
+            s = {'A': 'sA', 'C': 'sC', 'D': 'sD'}[j]
+            return EnumV('jobs::Job', 0, {0: [env.single_arcs[s]]})
+
+        def body(st, env=env, eng=eng, op=op):
+            env.assumptions.clear()
+            env.single_arcs = {s: ArcV(Cell(Opaque(s))) for s in TOUR_SINGLES}
+            env.single_cells = {s: a.cell for s, a in env.single_arcs.items()}
+            env.multi_arc = ArcV(Cell(Opaque('multi_M')))
+            # pre-state: which task each job activity serves (distinct)
+            chosen = []
+            for i in range(n_acts):
+                v = z3.Int(f'task_of_activity_{i + 1}')
+                opts = [(v == k, TOUR_SINGLES[k]) for k in range(4) if TOUR_SINGLES[k] not in chosen]
+                chosen.append(eng.choose(st, opts))
+            labels = ['start'] + chosen + (['end'] if closed else [])
+            z = FV.const(0)
+            acts = []
+            for lab in labels:
+                acts.append(env.activity(IV(0), z, z, FV.max_value(), z, z, has_job=lab in TOUR_SINGLES, job=env.single_arcs.get(lab)))
+            pre_objs = list(acts)
+            jobs_pre = []
+            for lab in chosen:
+                j = TOUR_JOB_OF[lab]
+                if j not in jobs_pre:
+                    jobs_pre.append(j)
+            tour = env.struct('solution::tour::Tour', activities=VecV(acts), jobs=AMapV([(job_value(env, j), UnitV()) for j in jobs_pre], True), is_closed=BV(closed))
+            cell = Cell(tour)
+            free = [s for s in TOUR_SINGLES if s not in chosen]
+            arg = None
+            result = None
+            subject = cell          # the tour that is observed afterwards
+            if op in ('insert_at', 'insert_last', 'copy'):
+                v = z3.Int('new_task')
+                new = eng.choose(st, [(v == TOUR_SINGLES.index(s), s) for s in free])
+                new_act = env.activity(IV(0), z, z, FV.max_value(), z, z, has_job=True, job=env.single_arcs[new])
+            if op == 'copy':
+                cp = eng.exec_fn(st, M['deep_copy'][0], [RefV(cell, 0)])
+                subject = Cell(cp)
+                copy_objs = list(env.field(cp, 'solution::tour::Tour', 'activities').items)
+            if op in ('insert_at', 'copy'):
+                idx = z3.Int('insert_index')
+                st.assumed.append(z3.And(idx >= 1, idx <= n_acts + 1))
+                eng.exec_fn(st, M['insert_at'][0], [RefV(subject, 0, True), new_act, IV(idx)])
+                # the index is concrete on this path now (Vec::insert split on it)
+                def _lab(a):
+                    jb = env.field(deref_all(a), 'route::Activity', 'job')
+                    return jb.payload[1][0].cell if jb.variant() == 1 else None
+                where = [i for i, a in enumerate(env.field(subject.v, 'solution::tour::Tour', 'activities').items) if _lab(a) is env.single_cells[new]]
+                arg = (new, where[0] if where else -1)
+                exp_labels, _ = tour_reference(labels, closed, 'insert_at', arg) if where else (None, None)
+                ref_op = 'insert_at'
+            elif op == 'insert_last':
+                eng.exec_fn(st, M['insert_last'][0], [RefV(subject, 0, True), new_act])
+                arg = new
+                exp_labels, _ = tour_reference(labels, closed, 'insert_last', new)
+                ref_op = op
+            elif op == 'remove':
+                v = z3.Int('removed_job')
+                j = eng.choose(st, [(v == i, x) for i, x in enumerate(('A', 'M', 'C', 'D'))])
+                r = eng.exec_fn(st, M['remove'][0], [RefV(subject, 0, True), RefV(Cell(job_value(env, j)), 0)])
+                arg = j
+                exp_labels, exp_r = tour_reference(labels, closed, 'remove', j)
+                result = ('bool', r, exp_r)
+                ref_op = op
+            elif op == 'remove_activity_at':
+                idx = z3.Int('remove_index')
+                i = eng.choose(st, [(idx == i, i) for i in range(1, n_acts + 1)])
+                r = eng.exec_fn(st, M['remove_activity_at'][0], [RefV(subject, 0, True), IV(i)])
+                arg = i
+                exp_labels, exp_job = tour_reference(labels, closed, 'remove_activity_at', i)
+                result = ('job', r, exp_job)
+                ref_op = op
+            if op == 'copy':
+                # a second change on the copy
+                v = z3.Int('removed_job')
+                j = eng.choose(st, [(v == i, x) for i, x in enumerate(('A', 'M', 'C'))])
+                eng.exec_fn(st, M['remove'][0], [RefV(subject, 0, True), RefV(Cell(job_value(env, j)), 0)])
+                exp_labels, _ = tour_reference(exp_labels, closed, 'remove', j) if exp_labels is not None else (None, None)
+                arg = (arg, j)
+
+            # ---- observe the resulting tour through the real accessors
+            def label_of(a):
+                a = deref_all(a)
+                job = env.field(a, 'route::Activity', 'job')
+                if job.variant() != 1:
+                    return None
+                c = job.payload[1][0].cell
+                return next(s for s, cc in env.single_cells.items() if cc is c)
+
+            def job_label(jv):
+                jv = deref_all(jv)
+                c = jv.payload[jv.variant()][0].cell
+                if c is env.multi_arc.cell:
+                    return 'M'
+                return TOUR_JOB_OF[next(s for s, cc in env.single_cells.items() if cc is c)]
+
+            from models import as_iter
+            tv = subject.v
+            now = env.field(tv, 'solution::tour::Tour', 'activities').items
+            obs = {}
+            seq = []
+            for pos, a in enumerate(now):
+                lab = label_of(a)
+                if lab is None:
+                    lab = 'start' if a is (copy_objs[0] if op == 'copy' else pre_objs[0]) else ('end' if closed and a is (copy_objs[-1] if op == 'copy' else pre_objs[-1]) else '?')
+                seq.append(lab)
+            obs['labels'] = seq
+            call = lambda m, *a: eng.exec_fn(st, M[m][0], [RefV(subject, 0)] + list(a))
+            conc = lambda v: v.concrete() if isinstance(v, IV) else (True if z3.is_true(zs(v.t)) else False if z3.is_false(zs(v.t)) else None)
+            obs['total'] = conc(call('total'))
+            obs['job_activity_count'] = conc(call('job_activity_count'))
+            obs['job_count'] = conc(call('job_count'))
+            obs['has_jobs'] = conc(call('has_jobs'))
+            obs['jobs'] = sorted(job_label(x) for x in as_iter(call('jobs')).items)
+            e = call('end_idx')
+            obs['end_idx'] = conc(e.payload[1][0]) if e.variant() == 1 else None
+            s0, s1 = call('start'), call('end')
+            obs['start_is_first'] = s0.variant() == 1 and deref_all(s0.payload[1][0]) is now[0]
+            obs['end_is_last'] = s1.variant() == 1 and deref_all(s1.payload[1][0]) is now[-1]
+            legs = []
+            for leg in as_iter(call('legs')).items:
+                sl, i = leg.fields
+                items = seq_items(deref_all(sl))
+                legs.append([[seq[now.index(deref_all(x))] if any(deref_all(x) is y for y in now) else '?' for x in items], conc(i)])
+            obs['legs'] = legs
+            obs['per_job'] = {}
+            for j in ('A', 'M', 'C', 'D'):
+                jr = lambda: RefV(Cell(job_value(env, j)), 0)
+                ix, ixl = call('index', jr()), call('index_last', jr())
+                obs['per_job'][j] = {
+                    'contains': conc(call('contains', jr())) and conc(call('has_job', jr())),
+                    'index': conc(ix.payload[1][0]) if ix.variant() == 1 else None,
+                    'index_last': conc(ixl.payload[1][0]) if ixl.variant() == 1 else None,
+                    'activities': len(as_iter(call('job_activities', jr())).items)}
+                if conc(call('contains', jr())) != conc(call('has_job', jr())):
+                    obs['per_job'][j]['contains'] = 'contains/has_job disagree'
+            extra = {}
+            if result is not None and result[0] == 'bool':
+                extra['result'] = (conc(result[1]), result[2])
+            if result is not None and result[0] == 'job':
+                extra['result'] = (job_label(result[1]), result[2])
+            if op == 'copy':
+                orig_now = env.field(cell.v, 'solution::tour::Tour', 'activities').items
+                extra['original_untouched'] = len(orig_now) == len(pre_objs) and all(x is y for x, y in zip(orig_now, pre_objs))
+                extra['no_sharing'] = not any(x is y for x in copy_objs for y in pre_objs) and len(copy_objs) == len(pre_objs)
+                oj = sorted(job_label(x) for x in as_iter(eng.exec_fn(st, M['jobs'][0], [RefV(cell, 0)])).items)
+                extra['original_jobs'] = (oj, sorted(set(jobs_pre)))
+            return (op, labels, arg, exp_labels, obs, extra)
+
+        paths = eng.explore(body, max_paths=20000)
+        res.paths += len(paths)
+        res.functions |= eng.functions_used
+        for st, out in paths:
+            if out is None:
+                if not no_panic(ctx, res, env, st, what=name):
+                    break
+                continue
+            kind, labels, arg, exp_labels, obs, extra = out
+            problems = []
+            if exp_labels is None:
+                problems.append('the inserted activity is not in the tour')
+            else:
+                want = tour_observations(exp_labels, closed)
+                for key in ('labels', 'total', 'job_activity_count', 'job_count', 'has_jobs', 'jobs', 'legs', 'end_idx', 'per_job'):
+                    if obs[key] != want[key]:
+                        problems.append(f'{key}: {obs[key]} expected {want[key]}')
+                if not obs['start_is_first'] or not obs['end_is_last']:
+                    problems.append('start()/end() are not the first/last activity')
+            if 'result' in extra and extra['result'][0] != extra['result'][1]:
+                problems.append(f'returned {extra["result"][0]}, expected {extra["result"][1]}')
+            if kind == 'copy':
+                if not extra['original_untouched']:
+                    problems.append('the original tour changed when its deep copy was modified')
+                if not extra['no_sharing']:
+                    problems.append('the deep copy shares activities with the original')
+                if extra['original_jobs'][0] != extra['original_jobs'][1]:
+                    problems.append(f'job set of the original after modifying the copy: {extra["original_jobs"][0]}')
+            claim = z3.BoolVal(not problems)
+            if not decide_claim(ctx, res, env, st, claim, what=f'{name}: {kind} {arg} on {labels}: ' + '; '.join(problems)[:300]):
+                if res.status == 'violated':
+                    res.case = {'kind': 'tour', 'closed': closed, 'pre': labels, 'op': kind, 'arg': arg, 'problems': problems[:5]}
+                break
+            if not no_panic(ctx, res, env, st, what=name):
+                break
+            res.witnesses += 1
+        if res.status != 'holds':
+            break
+    if res.status == 'holds' and res.witnesses == 0:
+        res.status, res.detail = 'inconclusive', 'vacuous'
+    res.time = time.time() - t0
+    return res
